@@ -29,6 +29,8 @@ type Env struct {
 	st     *State // current state (heap); nil in pure context
 	old    *Env   // environment for old(...)
 	alloc0 Term   // allocation counter at the reference point for fresh()
+	allocL Term   // allocation counter at loop entry, for freshL() in loop invariants
+	preEnv *Env   // loop-entry environment, for pre() in loop invariants
 	lookup func(name string) (EV, bool)
 	inOld  bool
 	fuel   int
@@ -36,8 +38,12 @@ type Env struct {
 }
 
 // noteRef records that a reference-typed value read from state env.st is allocated in that state.
-func (env *Env) noteRef(t Term, gt types.Type) {
-	if env.facts == nil || env.st == nil || gt == nil || strings.Contains(t, "q_") {
+func (env *Env) noteRef(t Term, gt types.Type) { env.noteRefOwned(t, gt, "") }
+
+// noteRefOwned: the fact is guarded by "owner is allocated in this state" (objects a callee will allocate are
+// modelled by prophecy and may hold refs beyond the current allocation counter).
+func (env *Env) noteRefOwned(t Term, gt types.Type, owner Term) {
+	if env.facts == nil || env.st == nil || gt == nil {
 		return
 	}
 	var f Term
@@ -58,6 +64,9 @@ func (env *Env) noteRef(t Term, gt types.Type) {
 		} else {
 			return
 		}
+	}
+	if owner != "" {
+		f = implies(app("isalloc", owner, env.st.alloc), f)
 	}
 	*env.facts = append(*env.facts, f)
 }
@@ -290,7 +299,7 @@ func (env *Env) selectField(ref Term, st types.Type, s *types.Struct, idx int) E
 		return EV{app("emb", ref, strconv.Itoa(idx)), SStruct, f.Type()}
 	}
 	r := EV{sel(env.heap(key), ref), fs, f.Type()}
-	env.noteRef(r.T, r.GT)
+	env.noteRefOwned(r.T, r.GT, ref)
 	return r
 }
 
@@ -340,6 +349,20 @@ func (env *Env) eval(e *Expr) EV {
 			efail("old() not available here")
 		}
 		return env.old.eval(e.Args[0])
+	case "call":
+		if e.Name == "pre" {
+			if env.preEnv == nil {
+				efail("pre() is only available in loop invariants")
+			}
+			if len(e.Args) != 1 {
+				efail("pre takes one argument")
+			}
+			pe := *env.preEnv
+			pe.vars = env.vars
+			pe.facts = env.facts
+			return pe.eval(e.Args[0])
+		}
+		return env.evalCall(e)
 	case "un":
 		x := env.eval(e.Args[0])
 		switch e.Name {
@@ -435,9 +458,30 @@ func (env *Env) eval(e *Expr) EV {
 				}
 			}
 		}
+		var qfacts []Term
+		if env.facts != nil {
+			ne.facts = &qfacts
+			if ne.old != nil {
+				ne.old.facts = &qfacts
+			}
+		}
 		body := ne.eval(e.Args[0])
 		if body.S != SBool {
 			efail("quantifier body is not boolean")
+		}
+		if env.facts != nil {
+			for _, f := range qfacts {
+				mentions := false
+				for _, v := range e.Vars {
+					if strings.Contains(f, "q_"+v.Name) {
+						mentions = true
+					}
+				}
+				if mentions {
+					f = "(forall (" + strings.Join(binders, " ") + ") " + f + ")"
+				}
+				*env.facts = append(*env.facts, f)
+			}
 		}
 		bt := body.T
 		if len(guards) > 0 {
@@ -459,8 +503,6 @@ func (env *Env) eval(e *Expr) EV {
 			bt = "(! " + bt + " " + strings.Join(pats, " ") + ")"
 		}
 		return EV{"(" + e.Op + " (" + strings.Join(binders, " ") + ") " + bt + ")", SBool, types.Typ[types.Bool]}
-	case "call":
-		return env.evalCall(e)
 	}
 	efail("cannot evaluate %s", e.String())
 	return EV{}
@@ -551,7 +593,7 @@ func (env *Env) deref(x EV) EV {
 	}
 	key, s := env.w.boxKey(et)
 	r := EV{sel(env.heap(key), x.T), s, et}
-	env.noteRef(r.T, r.GT)
+	env.noteRefOwned(r.T, r.GT, x.T)
 	return r
 }
 
@@ -571,7 +613,7 @@ func (env *Env) index(x EV, i Term) EV {
 		}
 		key, es := env.w.elemKey(et)
 		r := EV{sel(sel(env.heap(key), sarrOf(x.T)), sidx(soffOf(x.T), i)), es, et}
-		env.noteRef(r.T, r.GT)
+		env.noteRefOwned(r.T, r.GT, sarrOf(x.T))
 		return r
 	case SInt:
 		if x.GT != nil {
@@ -856,6 +898,16 @@ func (env *Env) evalCall(e *Expr) EV {
 			return EV{app("isfresh", sarrOf(x.T), env.alloc0), SBool, boolT}
 		}
 		return EV{app("isfresh", x.T, env.alloc0), SBool, boolT}
+	case "freshL":
+		argn(1)
+		x := env.eval(e.Args[0])
+		if env.allocL == "" {
+			efail("freshL() is only available in loop invariants")
+		}
+		if x.S == SSlice {
+			return EV{app("isfresh", sarrOf(x.T), env.allocL), SBool, boolT}
+		}
+		return EV{app("isfresh", x.T, env.allocL), SBool, boolT}
 	case "allocated":
 		argn(1)
 		x := env.eval(e.Args[0])
